@@ -121,6 +121,7 @@ func (p *StreamPool) Dump() {
 }
 
 func (p *StreamPool) remove(conn *connection) {
+	verifYieldRW(1, &p.mu, true)
 	p.mu.Lock()
 	if _, ok := p.conns[conn.key]; ok {
 		delete(p.conns, conn.key)
@@ -141,12 +142,14 @@ func NewStreamPool(factory StreamFactory) *StreamPool {
 }
 
 func (p *StreamPool) connections() []*connection {
+	verifYieldRW(2, &p.mu, false)
 	p.mu.RLock()
 	conns := make([]*connection, 0, len(p.conns))
 	for _, conn := range p.conns {
 		conns = append(conns, conn)
 	}
 	p.mu.RUnlock()
+	conns = verifOrderConns(conns)
 	return conns
 }
 
@@ -183,16 +186,19 @@ func (p *StreamPool) getHalf(k key) (*connection, *halfconnection, *halfconnecti
 // does not already exist, returns nil.  This allows us to check for a
 // connection without actually creating one if it doesn't already exist.
 func (p *StreamPool) getConnection(k key, end bool, ts time.Time, tcp *layers.TCP, ac AssemblerContext) (*connection, *halfconnection, *halfconnection) {
+	verifYieldRW(3, &p.mu, false)
 	p.mu.RLock()
 	conn, half, rev := p.getHalf(k)
 	p.mu.RUnlock()
 	if end || conn != nil {
 		return conn, half, rev
 	}
+	verifPoint(4)
 	s := p.factory.New(k[0], k[1], tcp, ac)
 	if s == nil {
 		return nil, nil, nil
 	}
+	verifYieldRW(5, &p.mu, true)
 	p.mu.Lock()
 	defer p.mu.Unlock()
 	conn, half, rev = p.newConnection(k, s, ts)
